@@ -15,18 +15,25 @@
 (*   Release(t, w)  release(): unlock if locked, owner := None             *)
 (*   ReleaseBy(t,w) repaired release_all: check and release under the      *)
 (*                  state lock (Fix = TRUE)                                *)
+(*   Scan / Acq2 / Use   operation "idle_run" = WorkerPool.run without the  *)
+(*                  call: next_idle_worker(maybe_acquire=True) (first the   *)
+(*                  unlocked is_locked(pool) scan, then acquire_by on the   *)
+(*                  others, courier_worker.py:354-372) followed by the      *)
+(*                  unguarded worker.release() of run's finally (428)       *)
 (***************************************************************************)
 EXTENDS Integers, Sequences, FiniteSets, TLC
 
 CONSTANTS Threads,      \* pool threads
           PoolOf,       \* [Threads -> pool id]
           WorkerSeq,    \* the pools' worker list (same order in every pool)
-          Prog,         \* [Threads -> Seq of "acquire_all" | "release_all"]
+          Prog,         \* [Threads -> Seq of "acquire_all" | "release_all" | "idle_run"]
           Fix           \* BOOLEAN: release_all checks ownership under the worker's state lock
 
 VARIABLES lock, owner, pc, ip, wi, seen,
-          got          \* number of workers the running _acquire_all has acquired so far
-vars == <<lock, owner, pc, ip, wi, seen, got>>
+          got,         \* number of workers the running _acquire_all has acquired so far
+          unacq,       \* next_idle_worker: indices of the workers not locked by this pool (second phase)
+          mine         \* next_idle_worker: index of the worker it returned (0 = none)
+vars == <<lock, owner, pc, ip, wi, seen, got, unacq, mine>>
 
 None == "none"
 WSeq == WorkerSeq
@@ -38,6 +45,7 @@ Init == /\ lock = [w \in Workers |-> FALSE]
         /\ pc = [t \in Threads |-> "next"]
         /\ ip = [t \in Threads |-> 1]
         /\ wi = [t \in Threads |-> 1]
+        /\ unacq = [t \in Threads |-> <<>>] /\ mine = [t \in Threads |-> 0]
         /\ seen = [t \in Threads |-> FALSE]
         /\ got = [t \in Threads |-> 0]
 
@@ -47,9 +55,10 @@ CurW(t) == WSeq[wi[t]]
 \* fetch the next operation of the thread's program
 Fetch(t) ==
   /\ pc[t] = "next" /\ ip[t] <= Len(Prog[t])
-  /\ pc' = [pc EXCEPT ![t] = IF Op(t) = "release_all" /\ Fix THEN "act" ELSE "avail"]
+  /\ pc' = [pc EXCEPT ![t] = IF Op(t) = "idle_run" THEN "scan" ELSE IF Op(t) = "release_all" /\ Fix THEN "act" ELSE "avail"]
   /\ wi' = [wi EXCEPT ![t] = 1]
   /\ got' = [got EXCEPT ![t] = 0]
+  /\ unacq' = [unacq EXCEPT ![t] = <<>>] /\ mine' = [mine EXCEPT ![t] = 0]
   /\ UNCHANGED <<lock, owner, ip, seen>>
 
 \* `if len(result) == num_workers: break` with the default num_workers = 0: _acquire_all gives up
@@ -67,7 +76,7 @@ Avail(t) ==
      IF a
      THEN pc' = [pc EXCEPT ![t] = "act"] /\ seen' = [seen EXCEPT ![t] = TRUE] /\ UNCHANGED <<wi, ip, got>>
      ELSE got' = got /\ AdvanceWorker(t, "avail") /\ UNCHANGED seen
-  /\ UNCHANGED <<lock, owner>>
+  /\ UNCHANGED <<lock, owner, unacq, mine>>
 
 \* acquire_by(pool) / release() under the worker's state lock
 Act(t) ==
@@ -85,11 +94,45 @@ Act(t) ==
           ELSE lock' = [lock EXCEPT ![w] = FALSE] /\ owner' = [owner EXCEPT ![w] = None]
   /\ (Op(t) # "acquire_all" => UNCHANGED got)
   /\ AdvanceWorker(t, IF Op(t) = "release_all" /\ Fix THEN "act" ELSE "avail")
-  /\ UNCHANGED seen
+  /\ UNCHANGED <<seen, unacq, mine>>
+
+\* ---- idle_run: next_idle_worker(maybe_acquire=True), then worker.release()
+EndOp(t) == pc' = [pc EXCEPT ![t] = "next"] /\ ip' = [ip EXCEPT ![t] = @ + 1] /\ wi' = [wi EXCEPT ![t] = 1]
+\* first loop: worker.is_locked(self), an unlocked read of lock and owner
+Scan(t) ==
+  /\ pc[t] = "scan"
+  /\ LET w == CurW(t) IN
+     IF lock[w] /\ owner[w] = PoolOf[t]
+     THEN /\ mine' = [mine EXCEPT ![t] = wi[t]] /\ pc' = [pc EXCEPT ![t] = "use"] /\ UNCHANGED <<unacq, wi, ip>>
+     ELSE /\ unacq' = [unacq EXCEPT ![t] = Append(@, wi[t])]
+          /\ IF wi[t] < NW THEN wi' = [wi EXCEPT ![t] = @ + 1] /\ UNCHANGED <<pc, ip>>
+                           ELSE wi' = [wi EXCEPT ![t] = 1] /\ pc' = [pc EXCEPT ![t] = "acq2"] /\ UNCHANGED ip
+          /\ UNCHANGED mine
+  /\ UNCHANGED <<lock, owner, seen, got>>
+\* second loop: acquire_by(self) on the workers that were not ours (wi indexes unacq here)
+Acq2(t) ==
+  /\ pc[t] = "acq2"
+  /\ LET w == WSeq[unacq[t][wi[t]]] p == PoolOf[t] IN
+     /\ IF owner[w] # p /\ ~lock[w]
+        THEN lock' = [lock EXCEPT ![w] = TRUE] /\ owner' = [owner EXCEPT ![w] = p]
+        ELSE UNCHANGED <<lock, owner>>
+     /\ IF owner'[w] = p
+        THEN mine' = [mine EXCEPT ![t] = unacq[t][wi[t]]] /\ pc' = [pc EXCEPT ![t] = "use"] /\ UNCHANGED <<wi, ip>>
+        ELSE /\ UNCHANGED mine
+             /\ IF wi[t] < Len(unacq[t]) THEN wi' = [wi EXCEPT ![t] = @ + 1] /\ UNCHANGED <<pc, ip>> ELSE EndOp(t)
+  /\ UNCHANGED <<seen, got, unacq>>
+\* run's `finally: worker.release()`: unguarded, under the worker's state lock
+Use(t) ==
+  /\ pc[t] = "use"
+  /\ LET w == WSeq[mine[t]] IN
+     lock' = [lock EXCEPT ![w] = FALSE] /\ owner' = [owner EXCEPT ![w] = None]
+  /\ EndOp(t)
+  /\ UNCHANGED <<seen, got, unacq, mine>>
 
 Terminated == (\A t \in Threads : pc[t] = "next" /\ ip[t] > Len(Prog[t])) /\ UNCHANGED vars
-Next == (\E t \in Threads : Fetch(t) \/ Avail(t) \/ Act(t)) \/ Terminated
-Spec == Init /\ [][Next]_vars /\ \A t \in Threads : WF_vars(Fetch(t) \/ Avail(t) \/ Act(t))
+Step(t) == Fetch(t) \/ Avail(t) \/ Act(t) \/ Scan(t) \/ Acq2(t) \/ Use(t)
+Next == (\E t \in Threads : Step(t)) \/ Terminated
+Spec == Init /\ [][Next]_vars /\ \A t \in Threads : WF_vars(Step(t))
 
 \* ---------------------------------------------------------------- properties
 \* at any time at most one pool owns a worker, and owner and lock agree
@@ -97,7 +140,8 @@ Consistent == \A w \in Workers : lock[w] <=> owner[w] # None
 \* a pool only ever releases workers it owns or that are free
 ReleaseOnlyOwn ==
   [][\A w \in Workers : (owner[w] # None /\ owner'[w] = None) =>
-        \E t \in Threads : pc[t] = "act" /\ CurW(t) = w /\ PoolOf[t] = owner[w]]_vars
+        \E t \in Threads : PoolOf[t] = owner[w] /\ \/ (pc[t] = "act" /\ CurW(t) = w)
+                                                    \/ (pc[t] = "use" /\ WSeq[mine[t]] = w)]_vars
 \* after a pool's release_all (its last operation) none of ITS workers remains acquired by it
 Done(t) == pc[t] = "next" /\ ip[t] > Len(Prog[t])
 ReleasedAtEnd ==
